@@ -445,7 +445,7 @@ def int_exprs(draw, names, lits):
     if k <= 1:
         return ("slen", x)
     if k == 2:
-        return ("indexof", x, ("sconst", draw(st.sampled_from(lits))), _ic(draw(st.sampled_from((0, 0, 1, 2)))))
+        return ("indexof", x, ("sconst", draw(st.sampled_from(lits))), _ic(draw(st.sampled_from((0, 0, 1, 2, 1 << 62, M64)))))
     if k == 3:
         return ("to_int", x)
     return ("slen", ("sconcat", x, _sv(draw(st.sampled_from(names)))))
